@@ -65,7 +65,9 @@ impl<'a, A: ToSocketAddrs> UdpSendTo<'a, A> {
 
 impl<A: ToSocketAddrs> EventSource for UdpSendTo<'_, A> {
     fn subscribe(&mut self, co: CoroutineImpl) {
-        let io_data = self.io_data;
+        // keep the event data alive: once the coroutine is published it may be resumed
+        // by another worker at once, finish and close the socket
+        let io_data = (*self.io_data).clone();
 
         #[cfg(feature = "io_timeout")]
         if let Some(dur) = self.timeout {
